@@ -69,6 +69,7 @@ class Job:
         self.obligations = _StreamList("ob")     # dicts: name, verdict, secs
         self.candidates = _StreamList("cand")    # dicts: oracle, args, why
         self.samples = []
+        self.selftest = []
         self.stats = dict(paths=0, infeasible=0, truncated=0, unsupported=0, queries=0, solver_s=0.0,
                           reachable_paths=0, vacuous_paths=0)
         self.notes = []
@@ -166,6 +167,19 @@ class Job:
                     self.candidates.append(dict(oracle=oracle or self.name, args=enc(args), why=name))
             except Exception as e:      # concretisation failed: stays an undischarged obligation
                 self.notes.append("concretisation failed for %s: %r" % (name, e))
+        if os.environ.get("VERIF_ORACLE_SELFTEST") and verdict == "unsat" and cex is not None and \
+                sum(1 for c in self.selftest if c["oracle"] == (oracle or self.name)) < 2:
+            # development aid (tools/oracle_selftest.sh): replay oracles normally run only after a failed obligation, so a
+            # bug in one stays latent; here a model of a path whose obligation HOLDS is pushed through the same oracle,
+            # which must then report "not violated" on the unchanged tree
+            try:
+                v_, m_, _s = ctx.solve(timeout_ms=5000)
+                if v_ == "sat":
+                    a_ = cex(m_)
+                    if a_ is not None:
+                        self.selftest.append(dict(oracle=oracle or self.name, args=enc(a_), why=name))
+            except Exception as e:
+                self.notes.append("selftest concretisation failed for %s: %r" % (name, e))
         if len(self.samples) < 4 and sample is not False:
             self.samples.append(dict(obligation=name, path_condition=[short(c) for c in ctx.pc[:6]],
                                      claim=short(term, 240) if not isinstance(term, bool) else str(term),
@@ -190,7 +204,7 @@ class Job:
         X = Ctx.XCHECK
         self.stats.update(cvc5_rechecked_unsat=X["unsat"], cvc5_unknown=X["unknown"], cvc5_disagree=X["disagree"],
                           cvc5_s=round(X["secs"], 2))
-        return dict(job=self.name, obligations=self.obligations, candidates=self.candidates, samples=self.samples,
+        return dict(job=self.name, obligations=self.obligations, candidates=self.candidates, samples=self.samples, selftest=self.selftest,
                     stats=self.stats, notes=self.notes, bounds=self.bounds, assumptions=sorted(self.assumptions),
                     functions=sorted(loader.ENTERED))
 
@@ -322,6 +336,34 @@ def run_oracle(check_mod, oracle, args, timeout=600):
         return dict(violated=None, detail="oracle crashed: " + (p.stderr or p.stdout)[-800:])
 
 
+def _oracle_selftest(mod, pid, results):
+    """tools/oracle_selftest.sh: every replay oracle, fed with models of paths on which the obligations hold, must say
+    "not violated" on the unchanged tree (known findings excepted)"""
+    from concurrent.futures import ThreadPoolExecutor
+    per, seen, todo = {}, set(), []
+    for r in results:
+        for c in r.get("selftest", []):
+            k = json.dumps([c["oracle"], c["args"]], sort_keys=True)
+            if k in seen or per.get(c["oracle"], 0) >= 8:
+                continue
+            seen.add(k)
+            per[c["oracle"]] = per.get(c["oracle"], 0) + 1
+            todo.append(dict(c, job=r["job"]))
+    known = load_known(pid)
+    bad = 0
+    with ThreadPoolExecutor(8) as ex:
+        outs = list(ex.map(lambda c: run_oracle(mod.__name__, c["oracle"], c["args"]), todo))
+    for c, o in zip(todo, outs):
+        v = o.get("violated")
+        kf = v and any(k.get("oracle") in (None, c["oracle"]) and k.get("class") == o.get("class") for k in known)
+        tag = "ok" if v is False else ("known-finding" if kf else ("CRASH" if v is None else "FAIL"))
+        if tag in ("FAIL", "CRASH"):
+            bad += 1
+            print("ORACLE-SELFTEST %s %s oracle=%s job=%s why=%s :: %s" % (tag, pid, c["oracle"], c["job"], c["why"][:80], str(o.get("detail"))[:300]))
+    print("ORACLE-SELFTEST %s: %d candidates over %d oracles, %d problems" % (pid, len(todo), len(per), bad))
+    return 0 if not bad else 3
+
+
 def load_known(pid):
     path = os.path.join(VERIF, "known_findings.json")
     if not os.path.exists(path):
@@ -356,6 +398,9 @@ def main(check_module, argv=None):
     nproc = int(os.environ.get("VERIF_JOBS", "0") or 0) or min(16, max(1, len(specs)))
     results = _schedule(specs, nproc, JOB_DEADLINE[tier])
     results.sort(key=lambda r: r["job"])
+
+    if os.environ.get("VERIF_ORACLE_SELFTEST"):
+        return _oracle_selftest(mod, pid, results)
 
     # ---- aggregate
     obligations = [dict(o, job=r["job"]) for r in results for o in r["obligations"]]
